@@ -5,6 +5,7 @@ open PebblesVerif.Merge
 #print axioms C04_total
 #print axioms C04_total_result
 #print axioms C04_root_owner
+#print axioms C04_node_field_owner
 #print axioms C04_node_iff
 #print axioms C04_node_iff_result
 #print axioms C04_urls
